@@ -1,11 +1,17 @@
 """C05 Fix never silently leaves or produces wrong data."""
-import arrayprop, directed
+import functools
+import arrayprop, directed, mcwitness
 
 
 def run(tier):
     return arrayprop.standard_run(
         "C05", tier, profiles=["grammar", "damage", "filters", "ranges", "grammar", "copy", "filters", "mixed"], nquick=48, nthorough=360,
-        directed_jobs=lambda s0: [(s0 + 1, dict(nd=2, np=2, copies=2), "directed-F1", 0, directed.f1_pasthash_overwritten),
+        # spec -> code: the histories TLC found for the branches of the repair logic (spec/witness/fixgoals.json) are executed on
+        # the binary; the trace specification fails the run if the fix does not go through the branch the history was found for
+        directed_jobs=lambda s0: [(s0 + 50 + i, dict(nd=2, np=w["np"], copies=2), "witness-%s-%s" % (w["template"], w["goal"]), 0,
+                                   functools.partial(mcwitness.replay_index, i))
+                                  for i, w in enumerate(mcwitness.all_witnesses()) if tier == "thorough" or i % 3 == 0] + [
+                                  (s0 + 1, dict(nd=2, np=2, copies=2), "directed-F1", 0, directed.f1_pasthash_overwritten),
                                   (s0 + 2, dict(nd=2, np=2, copies=2), "directed-F2", 0, directed.f2_pasthash_length),
                                   (s0 + 3, dict(nd=2, np=2, copies=2), "directed-fixframes", 0, directed.fix_frames),
                                   (s0 + 4, dict(nd=2, np=2, copies=2), "directed-fixframes", 0, directed.fix_frames),
